@@ -571,6 +571,42 @@ func runSerialExtra(raw json.RawMessage, seed int64) (res Result) {
 			}
 		}
 	}
+	// x >= p at EVERY magnitude of x - p: for each bit position b, x - p next to 2^b (just above, just below, a random value of
+	// that bit length), always the abscissa of a curve point, so that "x is not reduced" is the only reason to refuse the string.
+	// AggregateBLSSignatures parses without a subgroup test: a comparison with p that goes wrong anywhere shows as an acceptance.
+	{
+		room := new(big.Int).Sub(new(big.Int).Lsh(big.NewInt(1), 381), ref.P)
+		for b := 0; b <= room.BitLen(); b++ {
+			for form := 0; form < 3; form++ {
+				kk := new(big.Int).Lsh(big.NewInt(1), uint(b))
+				switch form {
+				case 1:
+					kk.Sub(kk, big.NewInt(int64(1+w.Rng.Intn(64))))
+				case 2:
+					kk.Add(kk, new(big.Int).Rand(w.Rng, kk))
+				}
+				if kk.Sign() < 0 || kk.Cmp(room) >= 0 {
+					continue
+				}
+				for tries := 0; tries < 200; tries++ {
+					if _, ok := ref.FpSqrt(ref.FpAdd(ref.FpMul(ref.FpMul(kk, kk), kk), big.NewInt(4))); ok {
+						break
+					}
+					kk.Add(kk, big.NewInt(1))
+				}
+				if kk.Cmp(room) >= 0 {
+					continue
+				}
+				pb := make([]byte, 48)
+				new(big.Int).Add(ref.P, kk).FillBytes(pb)
+				pb[0] |= 0x80 | byte(w.Rng.Intn(2))<<5
+				res.Evals++
+				if out, err := crypto.AggregateBLSSignatures([]crypto.Signature{pb}); err == nil {
+					add("AcceptsExactlyCanonical", fmt.Sprintf("AggregateBLSSignatures accepts %x, whose x is p + (a value of %d bits) (returns %x)", pb, kk.BitLen(), []byte(out)))
+				}
+			}
+		}
+	}
 	// signature strings inside LISTS: every entry is parsed on its own, so entries whose lengths compensate each other, or one
 	// bad entry at any position among valid ones, are rejected (aggregation, batch verification, threshold reconstruction)
 	{
